@@ -23,8 +23,8 @@ from . import dailyref as R
 from .c05 import _billing_data
 
 EXPLANATION = "C19: monthly / bi-monthly aggregation block of BillingModel.predict on symbolic daily results; totals across aggregation levels; argument catalogue."
-BOUNDS = {"quick": dict(rows="6-8 daily rows on enumerated spans (month boundaries, gaps, partial months)", nan_rows=2, zones=["US/Pacific", "UTC", "+ Australia/Sydney, Asia/Tokyo, Europe/Berlin on one span each"]),
-          "thorough": dict(rows="6-10 daily rows on enumerated spans", nan_rows=4, zones=["US/Pacific", "UTC", "Australia/Sydney", "Europe/London", "Asia/Tokyo", "Europe/Berlin", "Pacific/Auckland"])}
+BOUNDS = {"quick": dict(rows="6-8 daily rows on enumerated spans (month boundaries, gaps, partial months)", nan_rows=2, zones=["US/Pacific", "UTC", "+ Australia/Sydney, Asia/Tokyo, Europe/Berlin on one span each", "America/Asuncion and America/Havana across a clock change at local midnight on the 1st"]),
+          "thorough": dict(rows="6-10 daily rows on enumerated spans", nan_rows=4, zones=["US/Pacific", "UTC", "Australia/Sydney", "Europe/London", "Asia/Tokyo", "Europe/Berlin", "Pacific/Auckland", "America/Asuncion", "America/Havana"])}
 STUBS = ["(i) DailyModel._predict -> arbitrary daily frame (fresh symbols, solver-chosen NaN states)", "data object = BillingReportingData shell handing out the frame"]
 MODELS_USED = ["symreal ExtensionArray reductions (sum/mean/first), symnp.sqrt/square/sum"]
 ASSUMPTIONS = ["spans/timezones enumerated (catalogue), values and NaN states solver-quantified",
@@ -45,22 +45,30 @@ SPANS = {
     "partial": ["2021-05-31", "2021-06-01", "2021-06-15", "2021-06-30", "2021-07-01", "2021-08-31", "2021-09-01"],
     "yearend": ["2020-11-30", "2020-12-01", "2020-12-31", "2021-01-01", "2021-01-31", "2021-02-01"],
     "dst": ["2021-03-13", "2021-03-14", "2021-03-15", "2021-03-31", "2021-04-01", "2021-10-31", "2021-11-01", "2021-11-07"],
+    # zones that change their clocks at local midnight, here on the first day of a month: the day that labels the period
+    # starts at 01:00 (America/Asuncion 2023-10-01) or its midnight happens twice (America/Havana 2020-11-01)
+    "skipped-midnight": ["2023-09-29", "2023-09-30", "2023-10-01", "2023-10-02", "2023-10-31", "2023-11-01"],
+    "repeated-midnight": ["2020-10-30", "2020-10-31", "2020-11-01", "2020-11-02", "2020-11-30", "2020-12-01"],
 }
+MIDNIGHT = [("skipped-midnight", "America/Asuncion"), ("repeated-midnight", "America/Havana")]
 
 
 def span_index(span, zone):
-    return pd.DatetimeIndex([pd.Timestamp(d).tz_localize(zone) for d in SPANS[span]])
+    # a day whose midnight does not exist starts at its first instant; of a repeated midnight the first one starts the day
+    return pd.DatetimeIndex([pd.Timestamp(d).tz_localize(zone, nonexistent="shift_forward", ambiguous=True) for d in SPANS[span]])
 
 
 def cases(tier, seed):
     zones = ["US/Pacific", "UTC", "Australia/Sydney", "Europe/London"] if tier == "thorough" else ["US/Pacific", "UTC"]
-    spans = list(SPANS) if tier == "thorough" else ["boundary", "gap-month", "partial", "dst"]
+    spans = [sp for sp in SPANS if "midnight" not in sp] if tier == "thorough" else ["boundary", "gap-month", "partial", "dst"]
     out = [f"agg|{sp}|{z}|{agg}|{obs}" for sp in spans for z in zones for agg in ("monthly", "bimonthly") for obs in ("obs", "noobs")]
     if tier != "thorough":  # zones east of UTC: local midnight falls on the previous UTC day (and month)
         out += ["agg|boundary|Australia/Sydney|monthly|obs", "agg|boundary|Australia/Sydney|bimonthly|noobs", "agg|yearend|Asia/Tokyo|monthly|obs",
                 "agg|dst|Europe/Berlin|bimonthly|obs"]
     else:
         out += [f"agg|{sp}|{z}|{agg}|obs" for sp in spans for z in ("Asia/Tokyo", "Europe/Berlin", "Pacific/Auckland") for agg in ("monthly", "bimonthly")]
+    out += [f"agg|{sp}|{z}|{agg}|{obs}" for sp, z in MIDNIGHT for agg, obs in ((("monthly", "obs"), ("bimonthly", "noobs")) if tier != "thorough" else
+                                                                               [(a, o) for a in ("monthly", "bimonthly") for o in ("obs", "noobs")])]
     out += ["args|x|UTC|x|obs", "real|boundary|US/Pacific|monthly|obs"]
     return out
 
